@@ -210,7 +210,9 @@ func killnow(t *rt.Thread, c *rt.GoCont) (next rt.Cont, err error) {
 		return nil, err
 	}
 	ctx.SetStopLevel(rt.HardStop)
-	return nil, nil
+	// Still here: the context is not the running one, or it has ended already.
+	// The caller carries on.
+	return c.Next(), nil
 }
 
 func stopnow(t *rt.Thread, c *rt.GoCont) (next rt.Cont, err error) {
